@@ -88,6 +88,15 @@ def _size(s):
 
 
 def run_polyak(case):
+    import math
+
+    r = _run_polyak(case)
+    if r.get("ts") is not None and any(not math.isfinite(x) for v in r["ts"] for x in v):
+        return {"error": None, "nonfinite": True, "ts": None}
+    return r
+
+
+def _run_polyak(case):
     import torch as th
 
     from stable_baselines3.common.utils import polyak_update
@@ -122,6 +131,9 @@ def run_polyak(case):
 def polyak_expr(case, impl):
     import numpy as np
 
+    if impl.get("nonfinite"):
+        return "([false] : list bool)"
+
     f32 = lambda x: Fraction(float(np.float32(x)))  # noqa: E731
     ps = [f32(x) for v in case["ps"] for x in v] + ([Fraction(0)] if case["extra"] == "params" else [])
     ts = [f32(x) for v in case["ts"] for x in v] + ([Fraction(0)] if case["extra"] == "targets" else [])
@@ -144,6 +156,8 @@ def oracle_polyak(case, impl):
     import numpy as np
 
     probs = []
+    if impl.get("nonfinite"):
+        return [("oracle-polyak-law", f"polyak_update produced a non-finite target value (tau {case['tau']})")]
     if case["extra"]:
         if impl["error"] is None:
             probs.append(("oracle-polyak-length-mismatch-accepted", "polyak_update accepted parameter lists of different lengths"))
